@@ -1,9 +1,11 @@
 (* Property C10 -- Ray-transfer matrices account for the whole chord and respect voxel maps.
    This file contains nothing but the property theorems, each closed by [exact] of a lemma from
-   Proofs/, with Print Assumptions beneath. *)
+   Proofs/, with Print Assumptions beneath.  Model: Model/C10_RayTransfer.v. *)
 Require Import Cherab.Common.Qx.
 Require Import Cherab.Model.C10_RayTransfer.
-Require Import Cherab.Proofs.C10_Loop.
+Require Import Cherab.Proofs.C10_Loop Cherab.Proofs.C10_Count Cherab.Proofs.C10_Chord Cherab.Proofs.C10_Cart
+               Cherab.Proofs.C10_Maps.
+From Coq Require Import Qabs.
 Open Scope Q_scope.
 
 (* the flush-on-change loop of both integrators equals "every sample adds dt to the source of its
@@ -14,3 +16,129 @@ Theorem C10_loop_is_per_sample_add :
   forall j, accumulate_runs vm dt cells s0 j == accumulate_simple vm dt cells s0 j.
 Proof. exact runs_eq_simple. Qed.
 Print Assumptions C10_loop_is_per_sample_add.
+
+(* the entry of source j grows by dt times the number of samples whose cell is mapped to j *)
+Theorem C10_entry_is_dt_times_sample_count :
+  forall vm dt cells s0 j, (-1 < j)%Z ->
+  accumulate_simple vm dt cells s0 j == s0 j + dt * inject_Z (countp (fun c => (vm c =? j)%Z) cells).
+Proof. exact simple_count. Qed.
+Print Assumptions C10_entry_is_dt_times_sample_count.
+
+(* samples in cells mapped to -1 (outside the mask) change nothing: the result is the result of the
+   active samples alone; and a bin no sampled cell is mapped to keeps its value *)
+Theorem C10_inactive_cells_receive_nothing :
+  forall vm dt cells s0,
+  (forall j, accumulate_simple vm dt cells s0 j ==
+             accumulate_simple vm dt (filter (fun c => (vm c >? -1)%Z) cells) s0 j) /\
+  (forall j, (forall c, In c cells -> vm c <> j) -> accumulate_simple vm dt cells s0 j == s0 j).
+Proof. intros; split; [apply simple_filter_active | intros j; apply simple_untouched]. Qed.
+Print Assumptions C10_inactive_cells_receive_nothing.
+
+(* the entries of bins 0 .. B-1 together grow by dt times the number of samples in active cells *)
+Theorem C10_entries_sum_to_active_length :
+  forall vm dt cells B, (forall c, In c cells -> (vm c < Z.of_nat B)%Z) -> forall s0,
+  sum_bins (accumulate_simple vm dt cells s0) B ==
+  sum_bins s0 B + dt * inject_Z (countp (fun c => (vm c >? -1)%Z) cells).
+Proof. exact simple_total. Qed.
+Print Assumptions C10_entries_sum_to_active_length.
+
+(* every sampled cell active, dt = L / n: the entries grow by exactly L, the length of the chord *)
+Theorem C10_all_active_sum_is_length :
+  forall vm L cells B s0, cells <> [] ->
+  (forall c, In c cells -> (-1 < vm c < Z.of_nat B)%Z) ->
+  sum_bins (accumulate_simple vm (dt_of L (Z.of_nat (length cells))) cells s0) B == sum_bins s0 B + L.
+Proof. exact all_active_total. Qed.
+Print Assumptions C10_all_active_sum_is_length.
+
+(* midpoint samples t_k = (k + 1/2) dt, k < n, against one interval [a, b] of [0, n dt]: any set of
+   samples that contains those strictly inside and is contained in the closed interval has
+   dt * (its size) within dt of b - a *)
+Theorem C10_interval_sample_count :
+  forall dt, 0 < dt -> forall (n : nat) (S : Z -> bool) a b,
+  0 <= a -> a <= b -> b <= inject_Z (Z.of_nat n) * dt ->
+  (forall k, (0 <= k < Z.of_nat n)%Z -> a < t_of dt k -> t_of dt k < b -> S k = true) ->
+  (forall k, (0 <= k < Z.of_nat n)%Z -> S k = true -> a <= t_of dt k /\ t_of dt k <= b) ->
+  Qabs (dt * inject_Z (countk S n) - (b - a)) <= dt.
+Proof. exact midpoint_count. Qed.
+Print Assumptions C10_interval_sample_count.
+
+(* Cartesian grid, any cell sizes, any start, direction, length L, any number N of samples, any cell c:
+   dt * #(samples the model's cart_cell puts into c) differs from the exact chord of c (slab method)
+   by at most ONE integration step dt (the property allows two) *)
+Theorem C10_cartesian_cell_error_at_most_one_step :
+  forall dx dy dz s1 s2 s3 d1 d2 d3 L (N : nat),
+  0 < dx -> 0 < dy -> 0 < dz -> 0 < L -> (0 < N)%nat ->
+  (forall t, 0 <= t -> t <= L -> 0 <= s1 + d1 * t /\ 0 <= s2 + d2 * t /\ 0 <= s3 + d3 * t) ->
+  forall c : cell,
+  Qabs (dt_of L (Z.of_nat N) *
+        inject_Z (countp (cell_eqb c)
+                    (map (cart_cell (dx, dy, dz))
+                         (sample_points (s1, s2, s3) (d1, d2, d3) (dt_of L (Z.of_nat N)) (Z.of_nat N))))
+        - chord_cart (dx, dy, dz) (s1, s2, s3) (d1, d2, d3) L c) <= dt_of L (Z.of_nat N).
+Proof. exact cart_cell_error. Qed.
+Print Assumptions C10_cartesian_cell_error_at_most_one_step.
+
+(* PARTIAL (cylindrical cells): a cell that the line meets in the k ordered intervals ivs receives
+   dt * #samples within k * dt of the total length of the intervals.  Missing: the geometric fact that
+   an annular-sector cell (r, phi, z ranges) meets a straight line in at most two intervals, and that
+   the model's cyl_cell puts a sample into the cell exactly when its parameter is in one of them. *)
+Theorem C10_cell_error_k_intervals_partial :
+  forall dt, 0 < dt -> forall (n : nat) (S : Z -> bool) (ivs : list (Q * Q)),
+  chain 0 ivs -> (forall ab, In ab ivs -> snd ab <= inject_Z (Z.of_nat n) * dt) ->
+  (forall k, (0 <= k < Z.of_nat n)%Z -> existsb (in_open (t_of dt k)) ivs = true -> S k = true) ->
+  (forall k, (0 <= k < Z.of_nat n)%Z -> S k = true -> existsb (in_closed (t_of dt k)) ivs = true) ->
+  Qabs (dt * inject_Z (countk S n) - total_len ivs) <= inject_Z (Z.of_nat (length ivs)) * dt.
+Proof. exact k_intervals. Qed.
+Print Assumptions C10_cell_error_k_intervals_partial.
+
+(* a voxel map that merges cells: the entry of source s is the sum of the entries of its cells under
+   any one-source-per-cell map idm (injective on the grid) *)
+Theorem C10_merged_map_additive :
+  forall (vm idm : cell -> Z) (grid : list cell), NoDup grid ->
+  (forall c c', In c grid -> In c' grid -> idm c = idm c' -> c = c') ->
+  forall dt cells s, (-1 < s)%Z -> (forall c, In c grid -> (-1 < idm c)%Z) -> (forall c, In c cells -> In c grid) ->
+  accumulate_simple vm dt cells (fun _ => 0) s ==
+  Qsum (map (fun c => accumulate_simple idm dt cells (fun _ => 0) (idm c)) (filter (fun c => (vm c =? s)%Z) grid)).
+Proof. exact merged_map_additive. Qed.
+Print Assumptions C10_merged_map_additive.
+
+(* the code's angular index  <int>(((phi + 360) % period) / dphi)  is unchanged when the angle moves
+   by any whole number of periods (any period > 0, any dphi > 0) *)
+Theorem C10_phi_index_periodic :
+  forall period dphi phi (m : Z), 0 < period -> 0 < dphi ->
+  iphi_of_phi period dphi (phi + inject_Z m * period) = iphi_of_phi period dphi phi.
+Proof. exact phi_periodic. Qed.
+Print Assumptions C10_phi_index_periodic.
+
+(* dt = length / max(min_samples, <int>(length / step)) is below two steps *)
+Theorem C10_dt_below_two_steps :
+  forall len stp min_samples, 0 < stp -> 0 < len -> (1 <= min_samples)%Z ->
+  dt_of len (nsamples min_samples len stp) < 2 * stp.
+Proof. exact dt_lt_two_steps. Qed.
+Print Assumptions C10_dt_below_two_steps.
+
+(* the map built from a mask: -1 outside the mask, the running count of active cells inside *)
+Theorem C10_mask_map_spec :
+  forall mask next i, (i < length mask)%nat ->
+  nth i (map_from_mask_from next mask) (-1)%Z =
+  if nth i mask false then (next + countp (fun b : bool => b) (firstn i mask))%Z else (-1)%Z.
+Proof. exact map_from_mask_spec. Qed.
+Print Assumptions C10_mask_map_spec.
+
+(* the sample point the executable model computes is the literal formula of the code *)
+Theorem C10_sample_point_formula :
+  forall (s1 d1 len : Q) (n k : Z), ~ len == 0 -> (0 < n)%Z ->
+  s1 + (/ len * d1) * t_of (dt_of len n) k == Qred (s1 + d1 * lam_of n k).
+Proof. exact point_lam_literal. Qed.
+Print Assumptions C10_sample_point_formula.
+
+(* non-vacuity: the hypotheses of the Cartesian theorem and of the k-interval theorem are satisfiable *)
+Example C10_nonvacuous :
+  (forall t, 0 <= t -> t <= 3 -> 0 <= (1 # 2) + (1 # 3) * t /\ 0 <= 2 + (- (1 # 2)) * t /\ 0 <= 0 + 0 * t) /\
+  chain 0 [(0, 1); (2, 3)] /\ (forall c, In c [(0, 0, 0)%Z; (1, 0, 2)%Z] -> c <> cinit).
+Proof.
+  split; [|split].
+  - intros t H0 H1. repeat split; Lqa.lra.
+  - cbn. repeat split; Lqa.lra.
+  - intros c [<-|[<-|[]]]; discriminate.
+Qed.
